@@ -16,7 +16,7 @@ TECH = {
     "C04": "constant + regex-AST audit of the escape rewriting, decision-table extraction of quote selection; bracket-string guard and predicate path table (a long string after `[` is another literal); InterpolatedString segments rebuilt from the input literal only, no regex rewrite outside the StringLiteral arm; no lossy decoding of the input (R-EXACTREAD); R-PRINT; parser input provenance (R-PARSE(input))",
     "C05": "MIR decision-table extraction (ExpressionContext x inner kind) + role/context call-site pairs vs Lua grammar oracle, all layout paths; composite oracle kinds for unary operators over greedy operands; who may call remove_condition_parentheses",
     "C07": "MIR exhaustiveness of matches on non_exhaustive full_moon enums per feature configuration; dominance rules; prefix-role parenthesis invariant behind a stated belief; no formatter applied to a formatter's result (R-ONCE); caller-supplied offsets never index text (R-SLICE); R-ONCE through iterator items and closure parameters; parser input provenance and syntax conversion table (R-PARSE); frozen set of discarded trial-layout results (R-WASTE: formatting hoisted out of its guard is exponential in the depth); frozen bounded-cost trial shapes (R-TRIALSHAPE); frozen comment guards (R-GUARD)",
-    "C08": "MIR dominance: skip edge returns the node untouched, block post-processing guarded by FormatNode::Normal, toggle pairing; dominance of the range answers by the exit of the ignore-directive scan; toggle state threaded through the walk; table-field walkers ask about ignored fields; the sort guard walks the whole group (iterator-chain provenance); frozen comment guards (R-GUARD); toggle independent of the range (R-RANGE(toggle))",
+    "C08": "MIR dominance: skip edge returns the node untouched, block post-processing guarded by FormatNode::Normal, toggle pairing; dominance of the range answers by the exit of the ignore-directive scan; toggle state threaded through the walk; table-field walkers ask about ignored fields; the sort guard walks the whole group (iterator-chain provenance); frozen comment guards (R-GUARD); toggle independent of the range (R-RANGE(toggle)); toggle closures never driven by a short-circuiting iterator method (R-SKIP(walk), closure provenance into the adaptor call)",
     "C09": "MIR dominance + who-may-call on the out-of-range path; exhaustive enumeration of the orderings of (node start, node end, start bound, end bound) against the path table of the range test; abstract block-indent levels composed over the range-only visitor's call graph (R-INDENT); table-field walkers of the range-only visitor honour ignore directives; R-ONCE (formatted nodes carry no positions); out-of-range statements handed to the dispatching formatter (R-SKIP(h) path table); R-RANGE(toggle)",
     "C10": "MIR who-may-construct whitespace tokens, per-path constant audit of newline/indent literals, postcondition of the EOF whitespace trimmer on every return path, sanitiser-caller table; summary-based taint analysis of raw input trivia to the trivia sinks (R-RAW) with the sanitiser's postcondition; frozen comment guards (R-GUARD); builder chains over cloned input nodes replace every field (R-BUILDER, ADT field lists); R-PRINT; toggle pairing on the last statement (R-SKIP(d)); closures of formatters never return bare clones of input nodes (R-RAWNODE(closure)); CFG path exclusion of padding application and multi-line layout in format_index (R-PADLINE, backward dataflow through the vec! expansion and own closures)",
     "C11": "MIR decision-table extraction of option functions vs documented meaning, must-call siblings; quoted-string path clause; look-ahead table of the call formatter; both directions of the call-parentheses decision (three-valued documented conditions); measurement copies never returned (R-OPT(measure)); R-RAWNODE(closure)",
